@@ -100,13 +100,18 @@ def run(ctx):
                   'after writing a line the consumer loop can exit without looking at the queue again (accepted lines are dropped at stop)',
                   cfg.describe_path(p) if p else None)
         # the sentinel (empty text while stopping) is not written: process_logline unreachable from a successful pop under that valuation
-        def sentinel_val(v, w, lab):
+        # the popped-element pointer may be tested more than once (`if (p && marker) break; if (p) process(p)`): its truth is fixed per valuation
+        elem_ptr = [x.declid for x in sent[0][1].walk() if x.k == 'DeclRefExpr' and x.decl and x.decl.get('sc') == 'local' and (x.type or {}).get('k') == 'ptr']
+        def sentinel_val(v, w, lab, _pv=None):
             if lab is None or not isinstance(lab[1], bool):
                 return True
             cn = cfg.cond_node(lab[0])
             if cn is None:
                 return True
             a, pol = q.polar(cn, lab[1])
+            sa_ = a.strip(casts=True)
+            if _pv is not None and sa_.k == 'DeclRefExpr' and sa_.declid in elem_ptr:
+                return pol is _pv
             if a == sent[0][1]:
                 return pol is sent_truth
             if reads_stop(a) and not any(x.is_call and x.callee is not None and x.callee.get('n') == 'try_pop' for x in a.walk()):
@@ -115,10 +120,13 @@ def run(ctx):
         starts = set()
         for br in pops:
             starts |= set(q.atom_edge(cfg, br, True))
-        reach_s = set()
-        for st0 in starts:
-            reach_s |= cfg.reach_from(st0, edge_ok=sentinel_val, avoid=[cfg.block_last[b] for (b, _a, _p) in pops]) | {st0}
-        ctx.check(cfg.vertex_of(c) not in reach_s, 'R28.2', L + 'operator()#sentinel.not-written', c.loc,
+        written = False
+        for pv in ((True, False) if elem_ptr else (None,)):
+            reach_s = set()
+            for st0 in starts:
+                reach_s |= cfg.reach_from(st0, edge_ok=(lambda v, w, lab, _p=pv: sentinel_val(v, w, lab, _p)), avoid=[cfg.block_last[b] for (b, _a, _p) in pops]) | {st0}
+            written = written or (cfg.vertex_of(c) in reach_s)
+        ctx.check(not written, 'R28.2', L + 'operator()#sentinel.not-written', c.loc,
                   'the stop sentinel itself (empty text while stopping) is not written')
     rel = q.verts(cfg, [c for c in op.calls() if c.callee is not None and c.callee.get('n') == 'release'])
     for br in pops:
